@@ -419,6 +419,25 @@ fn specific_alphabet(node: &RSchema, env: &Env) -> Vec<Pres> {
 			let mut unk = f.clone();
 			unk.insert(f.len() / 2, ("nope", Pres::I32(1)));
 			variants(unk, &mut a);
+			// every presentation order x a duplicate of every field at every position (a duplicate may
+			// arrive while the first occurrence is still held back waiting for earlier fields)
+			if (2..=3).contains(&f.len()) {
+				let n = f.len();
+				let perms: Vec<Vec<usize>> = if n == 2 { vec![vec![0, 1], vec![1, 0]] } else { vec![vec![0, 1, 2], vec![0, 2, 1], vec![1, 0, 2], vec![1, 2, 0], vec![2, 0, 1], vec![2, 1, 0]] };
+				for perm in perms {
+					let ordered: Vec<(&'static str, Pres)> = perm.iter().map(|&i| f[i].clone()).collect();
+					if perm.windows(2).any(|w| w[0] > w[1]) {
+						variants(ordered.clone(), &mut a);
+					}
+					for i in 0..n {
+						for pos in 0..=n {
+							let mut d = ordered.clone();
+							d.insert(pos, f[i].clone());
+							variants(d, &mut a);
+						}
+					}
+				}
+			}
 		}
 		RSchema::Array(item) | RSchema::Map(item) => {
 			a.extend(specific_alphabet(item, env));
